@@ -637,6 +637,10 @@ impl Val {
                             let radix = Self::try_to_integer(p, err)?
                                 .try_into()
                                 .map_err(|_| err())?;
+                            // from_str_radix panics outside this range
+                            if radix < 2 || radix > 36 {
+                                return Err(err());
+                            }
                             let n = i64::from_str_radix(s, radix).map_err(|_| err())?;
                             *self = Val::Number(n as f64);
                             Ok(())
